@@ -21,13 +21,15 @@ Definition raw_eqb (m : load_res) (o : raw_obs) : bool :=
   | _, _ => false
   end.
 
-Definition corr (c : case) : bool := raw_eqb (load (c_fs c) (c_cwd c) (c_name c) (c_start c)) (c_raw c).
-
-Definition spec (c : case) : bool := spec_ok (c_fs c) (c_cwd c) (c_start c) (c_name c) (c_abs c).
-
 (** the harness made raw and absolute observations consistently *)
 Definition obs_consistent (c : case) : bool :=
   match c_raw c, c_abs c with
   | RLoaded _ _, OLoaded _ _ | RNotFound, ONotFound | RImportError, OImportError | ROther, OOther => true
   | _, _ => false
   end.
+
+Definition corr (c : case) : bool :=
+  raw_eqb (load (c_fs c) (c_cwd c) (c_name c) (c_start c)) (c_raw c) && obs_consistent c.
+
+Definition spec (c : case) : bool := spec_ok (c_fs c) (c_cwd c) (c_start c) (c_name c) (c_abs c).
+
